@@ -432,7 +432,7 @@ def build(tier, seed):
          family="get_literal_expr on look-alike atoms",
          bounds="38 atoms: ints, bools, None, floats incl. -0.0/inf/nan, strs with quote/backslash/brace, bytes, Decimal, Fraction, complex, IntEnum, str-Enum, int/str subclasses, singletons, builtins")
     m.ob("lit_container", "kind: int, n: int, s0: int, s1: int", "return lit_ok(container(kind, n, s0, s1))",
-         pre=["0 <= kind <= 9", "0 <= n <= 2", "0 <= s0 < len(SUB)", "0 <= s1 < len(SUB)"], timeout=tmo * 2,
+         pre=["0 <= kind <= 9", "0 <= n <= 2", "0 <= s0 < len(SUB)", "0 <= s1 < len(SUB)"], timeout=tmo * 5,
          family="get_literal_expr on containers of look-alikes",
          bounds="10 container shapes (list, tuple, set, frozenset, dict, nested, tuple/list subclasses) x <=2 elements from 16 look-alikes (incl. nan, inf, -0.0)")
     m.ob("lit_range", "kind: int, a: int, b: int, c: int", "return lit_ok(rng(kind, a, b, c))",
